@@ -8,7 +8,13 @@
    has done its `_loaded_strings.insert(0, s)` but not yet its
    `store_string(s)` [t_fly].
 
-   Atomic steps = the lock regions and the single unlocked statements:
+   Atomic steps = the lock regions and the single unlocked statements, EXCEPT
+   that [LStep] takes the loader's locked statement together with the whole
+   unlocked `for event in ...: event.set()` loop that follows it.  The safety
+   theorems never look at the event flags, so this is sound for them (and
+   C13_ev_exactly_once re-proves them for the split system); the loops
+   themselves - where consumers finish and register in between - are modelled
+   in Model/C13_ThreadedEv.v.
 
      CStart  a `load()` call up to its first await.  When it is the first one
              (P0): `with lock: _loaded_strings = []`, thread started -> P2.
